@@ -2426,8 +2426,10 @@ impl Formatter {
     let e = self.expression(expr);
     if self.html {
       format!("<span class=\"mech-argument\"><span class=\"mech-argument-name\">{}</span><span class=\"mech-argument-expression\">{}</span></span>",n,e)
+    } else if name.is_some() {
+      format!("{}: {}", n, e)
     } else {
-      format!("{}{}", n, e)
+      e
     }
   }
 
